@@ -323,6 +323,23 @@ fn walk_table<'d, E: EndianParse, P: ParseAt, F: FnMut(&mut Sink, &P)>(sink: &mu
     sink.end(Kind::Linear);
 }
 
+/// long NUL-free query text ("all argument values" includes names far longer than anything in the file)
+static LONG: [u8; 4096] = {
+    let mut a = [b'_'; 4096];
+    a[0] = b'.';
+    a[1] = b't';
+    a[2] = b'e';
+    a[3] = b'x';
+    a[4] = b't';
+    a[5] = b'.';
+    a
+};
+const LONG_LENS: [usize; 8] = [31, 63, 64, 65, 127, 256, 1000, 4096];
+
+fn long_name(n: usize) -> &'static [u8] {
+    &LONG[..n.min(LONG.len())]
+}
+
 const NAMES: [&[u8]; 7] = [b"", b"memset", b"a", b"\xff\xfe", b"use_memset_v2", b"\x0f\x0f\x0f\x0f\x0f\x0f\x0f\xff", b"ab\x0f\x0f\x0f\x0f\x0f\x0f\x0f\xf0\xffz"];
 
 fn walk_hashes<'d, E: EndianParse>(sink: &mut Sink, e: E, class: Class, hash_bytes: &'d [u8], symtab: &SymbolTable<'d, E>, strs: &StringTable<'d>) {
@@ -336,14 +353,16 @@ fn walk_hashes<'d, E: EndianParse>(sink: &mut Sink, e: E, class: Class, hash_byt
     sink.end(Kind::Linear);
     // names drawn from the file (first symbols) and fixed ones
     let nsym = symtab.len().min(24);
-    for k in 0..nsym + NAMES.len() {
+    for k in 0..nsym + NAMES.len() + LONG_LENS.len() {
         let name: &[u8] = if k < nsym {
             match symtab.get(k).ok().and_then(|s| strs.get_raw(s.st_name as usize).ok()) {
                 Some(n) => n,
                 None => continue,
             }
-        } else {
+        } else if k < nsym + NAMES.len() {
             NAMES[k - nsym]
+        } else {
+            long_name(LONG_LENS[k - nsym - NAMES.len()])
         };
         if let Ok(t) = &sysv {
             sink.begin("SysVHashTable::find", Kind::Linear);
@@ -650,7 +669,8 @@ pub fn walk_file<E: EndianParse>(data: &[u8], sink: &mut Sink) {
         }
     }
     sink.end(Kind::Linear);
-    for name in [".symtab", ".dynsym", ".note.gnu.build-id", "", ".shstrtab", "\u{e9}", ".text"] {
+    let long_names = LONG_LENS.map(|n| core::str::from_utf8(long_name(n)).unwrap_or(""));
+    for name in [".symtab", ".dynsym", ".note.gnu.build-id", "", ".shstrtab", "\u{e9}", ".text"].iter().chain(long_names.iter()) {
         sink.begin("section_header_by_name", Kind::Linear);
         let r = file.section_header_by_name(name);
         sink.res(&r);
@@ -672,14 +692,16 @@ pub fn walk_file<E: EndianParse>(data: &[u8], sink: &mut Sink) {
         if let (Some(t), Some(s)) = (c.dynsyms, c.dynsyms_strs) {
             walk_table::<E, Symbol, _>(sink, "common.dynsyms", &t, class, |k, y| fold_sym(k, y));
             let nsym = t.len().min(24);
-            for k in 0..nsym + NAMES.len() {
+            for k in 0..nsym + NAMES.len() + 2 {
                 let name: &[u8] = if k < nsym {
                     match t.get(k).ok().and_then(|y| s.get_raw(y.st_name as usize).ok()) {
                         Some(n) => n,
                         None => continue,
                     }
-                } else {
+                } else if k < nsym + NAMES.len() {
                     NAMES[k - nsym]
+                } else {
+                    long_name([64, 300][k - nsym - NAMES.len()])
                 };
                 if let Some(h) = &c.sysv_hash {
                     sink.begin("common.sysv_hash.find", Kind::Linear);
